@@ -423,21 +423,10 @@ impl Network {
         let mut latest_datetime = DateTime::Earliest;
 
         // add overflow depot:
-        // its has infinity capacity for all types (i.e., service trips * maximal_formation_count)
+        // its has infinity capacity for all types (i.e., the number of vehicle ids)
         // but it is located Nowhere, i.e. Distance is Infinity to all other locations
-        let number_of_service_nodes = service_trips.values().map(|vec| vec.len()).sum::<usize>();
-        let max_formation_count = vehicle_types
-            .iter()
-            .map(|vt| {
-                vehicle_types
-                    .get(vt)
-                    .unwrap()
-                    .maximal_formation_count()
-                    .unwrap_or(1)
-            })
-            .max()
-            .unwrap_or(1);
-        let overflow_capacity = number_of_service_nodes as VehicleCount * max_formation_count;
+        // no more vehicles than vehicle ids can exist, so this is never the binding constraint
+        let overflow_capacity = Idx::MAX as VehicleCount;
         let overflow_depot_id = DepotIdx::from(depots.len() as Idx);
         let overflow_depot = Depot::new(
             overflow_depot_id,
